@@ -126,6 +126,7 @@ func prop(c Case, st *stats) (fail *vlib.Failure) {
 		return f
 	}
 	m := vlib.NewModel()
+	noStored := c.Conf.SegVer == 2 // never load stored fields of a version-2 segment while merges may run (vlib.Idx.NoStored)
 	nBatches := 0
 	closed := false
 	var readers []*held
@@ -174,7 +175,7 @@ func prop(c Case, st *stats) (fail *vlib.Failure) {
 		return rr.X.TolerateIceV2(site, ev, func() *vlib.Failure {
 			var fo *vlib.FullObs
 			var err error
-			if f := vlib.Watchdog("use-reader", vlib.CallBound, func() *vlib.Failure { fo, err = vlib.ObserveFull(h.r, h.model.SortedIDs()); return nil }); f != nil {
+			if f := vlib.Watchdog("use-reader", vlib.CallBound, func() *vlib.Failure { fo, err = vlib.ObserveFull(h.r, h.model.SortedIDs(), noStored); return nil }); f != nil {
 				return f
 			}
 			if err != nil {
